@@ -83,6 +83,9 @@ def rcell(r, col):
     return one()
 
 
+WILD = ['v # trailing comment', ' lead', 'trail ', 'a\tb', '{{}}', 'x {{ }} y', '# only a comment', 'a#b',
+        '"q # r"', '  ', 'v  #', 'two  blanks', '7 # seven', "it's # odd"]
+
 COMMENTS = [None, None, None, 'short header', '# already a comment', 'x',
             ['first line', 'second line'], ['a much longer header line than the default one would ever be, '
                                             'to make the text of a copy longer than the text it replaces']]
@@ -168,7 +171,10 @@ def generate(seed, tier='quick'):
                                            for _ in range(r.randint(1, 3))]
             if op in ('append_pairs', 'append_mixed'):
                 for _ in range(r.randint(1, 2)):
-                    st['pairs'].append(['nk%dw' % npair, rstr(r, 6, header=True)])
+                    if r.random() < 0.2:
+                        st['pairs'].append(['wk%dw' % npair, r.choice(WILD)])
+                    else:
+                        st['pairs'].append(['nk%dw' % npair, rstr(r, 6, header=True)])
                     npair += 1
             steps.append(st)
         elif op == 'append_empty':
